@@ -192,22 +192,6 @@ Theorem C09_inv2_set_done : forall s i pc', inv1 s -> inv2' s -> wl s = WTr -> t
 Proof. exact step_reltr. Qed.
 Print Assumptions C09_inv2_set_done.
 
-(*    What "the owner's obligation" means, on a concrete schedule (also reproduced on the implementation, see
-      findings/C09_close_waits_for_late_transaction.json): OpenTransaction (client 0) passes the closed test and
-      takes the write lock, Close (client 1) sets closed, closes closeC and reads db.tr == nil, OpenTransaction
-      sets db.tr and returns.  Close now waits for the write lock, which belongs to the transaction: its only
-      way on is the owner's Discard (Commit fails with ErrClosed at its closed test). *)
-Definition c09_late_tr : list action :=
-  [ACli 0 4 0; ACli 0 1 0; ACli 0 0 0; ACli 1 7 0; ACli 1 0 0; ACli 1 0 0; ACli 1 0 0; ACli 1 1 0;
-   ACli 0 2 0; ACli 0 1 0; ACli 0 0 0; ACli 0 0 0; AM 0; AM 0; AT 0; AT 0; AT 1; ACE 1].
-Example C09_close_waits_for_late_transaction :
-  match run fixed init c09_late_tr with
-  | Some s => Some (cli s 0, cli s 1, wl s, trown s, mc s, tc s, ce s,
-                    match step fixed s (ACli 1 0 0) with Some _ => true | None => false end)
-  | None => None
-  end = Some (IdleTr, CL4, WTr, Some 0, MDone, TDone, E_done, false).
-Proof. vm_compute. reflexivity. Qed.
-
 (* 4. The code before the repairs leaks: concrete schedules of the unfixed variants end in a state where a lock
       is held by nobody who will release it (and the repaired code, on the same schedule, does not). *)
 Example C09_commit_leaks_refuted :
@@ -250,3 +234,19 @@ Example C09_set_read_only_leaks_refuted :
   summary (run fixed init trace_D8) = Some (WFree, None, None, Ret, CL4).
 Proof. exact set_read_only_leaks_refuted. Qed.
 Print Assumptions C09_set_read_only_leaks_refuted.
+
+(*    OpenTransaction racing Close (repaired by fb021ae; found by this check, findings/C09_close_waits_for_late_transaction.json):
+      OpenTransaction passes the closed test and takes the write lock, Close sets closed, closes closeC and reads
+      db.tr == nil, OpenTransaction publishes db.tr.  Old code: it returns the transaction, and Close waits for the
+      write lock until the owner of a transaction on a closed DB discards it.  Repaired code, same schedule: it
+      sees closeC closed and gives the transaction up itself (tr.lk.Lock, discard, setDone); nine good steps
+      later OpenTransaction has returned ErrClosed and Close has returned. *)
+Example C09_late_transaction_refuted :
+  summary9 unfixed_D9 (run unfixed_D9 init trace_D9) = Some (IdleTr, CL4, WTr, Some 0, MDone, TDone, E_done, false) /\
+  summary9 fixed (run fixed init trace_D9) = Some (OT6 XUser, CL4, WTr, Some 0, MDone, TDone, E_done, false) /\
+  match run fixed init trace_D9 with
+  | Some s => match grun s trace_D9_rest with Some s' => Some (cli s' 0, cli s' 1, wl s', trown s') | None => None end
+  | None => None
+  end = Some (Idle, Idle, WClosed, None).
+Proof. exact late_transaction_refuted. Qed.
+Print Assumptions C09_late_transaction_refuted.
